@@ -1,29 +1,36 @@
-(* Proofs about Model/GenShape.v: the only reachable crash site of the generator model is the
-   type assertion in GenerateInclude (refuted totality + the partial theorem), every other index,
-   slice and assertion is guarded. *)
+(* Proofs about Model/GenShape.v: no crash site of the generator model is reachable - every index,
+   slice, type assertion and explicit panic is guarded - and no generated instruction holds a nil
+   symbol. *)
 From Coq Require Import List Bool Arith Lia.
 Import ListNotations.
 Require Import ZV.Model.GenShape.
 
-Definition good (r : res) : Prop := forall s, r = RCrash s -> s = SiteIncludeTail.
+Definition good (r : res) : Prop := (forall s, r <> RCrash s) /\ (forall m, r <> ROk m true).
 
-Lemma good_ok : forall m l, good (ROk m l). Proof. intros m l s H; discriminate. Qed.
+Lemma good_ok : forall m, good (ROk m false).
+Proof. intros m; split; intros; discriminate. Qed.
 Lemma good_ok' : forall m, good (ok m). Proof. intros; apply good_ok. Qed.
-Lemma good_err : good RErr. Proof. intros s H; discriminate. Qed.
-Lemma good_defer : good RDefer. Proof. intros s H; discriminate. Qed.
-Lemma good_fuel : good RFuel. Proof. intros s H; discriminate. Qed.
-Lemma good_inc : good (RCrash SiteIncludeTail). Proof. intros s H; inversion H; reflexivity. Qed.
+Lemma good_err : good RErr. Proof. split; intros; discriminate. Qed.
+Lemma good_defer : good RDefer. Proof. split; intros; discriminate. Qed.
+Lemma good_fuel : good RFuel. Proof. split; intros; discriminate. Qed.
 
 Lemma good_bind : forall m r k, good r -> (forall m', good (k m')) -> good (bind m r k).
 Proof.
-  intros m r k Hr Hk s H. destruct r; simpl in H; try discriminate.
-  - specialize (Hk macs). destruct (k macs) eqn:E; try discriminate. apply Hk. exact H.
-  - apply Hr. exact H.
-  - specialize (Hk m). destruct (k m) eqn:E; try discriminate. apply Hk. exact H.
+  intros m r k [Hc Hl] Hk. destruct r; simpl; try (split; intros; discriminate).
+  - destruct latent. exfalso; eapply Hl; reflexivity.
+    destruct (Hk macs) as [Kc Kl]. destruct (k macs) eqn:E; simpl; try (split; intros; discriminate).
+    + destruct latent. exfalso; eapply Kl; reflexivity. apply good_ok.
+    + exfalso; eapply Kc; reflexivity.
+  - exfalso; eapply Hc; reflexivity.
+  - destruct (Hk m) as [Kc Kl]. destruct (k m) eqn:E; try (split; intros; discriminate).
+    exfalso; eapply Kc; reflexivity.
 Qed.
 
 Lemma good_taint : forall r, good r -> good (taint r).
-Proof. intros r Hr s H. destruct r; simpl in H; try discriminate. apply Hr; exact H. Qed.
+Proof.
+  intros r [Hc Hl]. destruct r; simpl; try (split; intros; discriminate).
+  exfalso; eapply Hc; reflexivity.
+Qed.
 
 Lemma good_idx : forall l i c k, i < length l -> (forall x, good (k x)) -> good (idx l i c k).
 Proof.
@@ -124,6 +131,12 @@ Section Steps.
     intros. apply good_sc_loop. lia.
   Qed.
 
+  Lemma good_quote : forall m args, good (gen_quote m args).
+  Proof.
+    intros. unfold gen_quote. destruct (length args =? 1) eqn:E; simpl. 2: apply good_err.
+    apply Nat.eqb_eq in E. apply good_idx. lia. intros; apply good_ok'.
+  Qed.
+
   Lemma good_cond_loop : forall n g args m, 2 * n <= length args -> good (cond_loop rec g args n m).
   Proof.
     induction n; intros; cbn [cond_loop]. apply good_ok'.
@@ -152,13 +165,13 @@ Section Steps.
     - intros. apply good_idx. lia. intros; apply good_gen.
   Qed.
 
-  Lemma good_mdef_targets : forall nsym m args i lat, i + nsym <= length args -> good (mdef_targets m args i nsym lat).
+  Lemma good_mdef_targets : forall nsym m args i, i + nsym <= length args -> good (mdef_targets m args i nsym false).
   Proof.
     induction nsym; intros; simpl. apply good_ok.
     apply good_idx. lia. intros a. destruct a; try apply good_err.
     - destruct (is_quoted_symbol a1 a2) as [u b] eqn:E. destruct b.
       + destruct (quoted_symbol_shape _ _ _ E) as [s Hs]. subst u. apply IHnsym. lia.
-      + apply IHnsym. lia.
+      + apply good_err.
     - destruct (has_macro m s). apply good_err. apply IHnsym. lia.
   Qed.
 
@@ -198,7 +211,8 @@ Section Steps.
     destruct (s_bind s); try apply good_err.
     apply good_slice. lia. intros body.
     pose proof (good_build_fun g m (Some (s_num s)) l body) as Hb.
-    destruct (build_fun rec g m (Some (s_num s)) l body); try exact Hb. apply good_ok.
+    destruct (build_fun rec g m (Some (s_num s)) l body); try exact Hb.
+    destruct Hb as [_ Hl]. destruct latent. exfalso; eapply Hl; reflexivity. apply good_ok.
   Qed.
 
   Lemma let_lhs_no_crash : forall n b i c, 2 * (i + n) <= length b -> let_lhs b i n <> CCrash c.
@@ -273,7 +287,7 @@ Section Steps.
 
   Lemma good_inc_walk : forall e g m, good (inc_walk rec g m e).
   Proof.
-    induction e; intros; simpl; try apply good_inc. apply good_ok'.
+    induction e; intros; simpl; try apply good_err. apply good_ok'.
     apply good_bind. apply Hrec. intros; apply IHe2.
   Qed.
 
@@ -379,7 +393,7 @@ Section Steps.
       + apply good_short_circuit.
       + apply good_short_circuit.
       + apply good_cond.
-      + apply good_ok'.
+      + apply good_quote.
       + apply good_def; auto.
       + apply good_mdef.
       + apply good_fn.
@@ -457,21 +471,26 @@ Section Steps.
   Proof. intros. destruct md; simpl. apply good_generate. apply good_sq_one. apply good_inc_item. Qed.
 End Steps.
 
-(* the only reachable crash site is the assertion in GenerateInclude *)
-Theorem run_only_include_crash : forall omacro oinfix ofile fuel md g m e s,
-  run omacro oinfix ofile fuel md g m e = RCrash s -> s = SiteIncludeTail.
+(* no crash outcome and no latent (nil-symbol) instruction, for every input, state and oracle *)
+Theorem run_good : forall omacro oinfix ofile fuel md g m e, good (run omacro oinfix ofile fuel md g m e).
 Proof.
-  intros omacro oinfix ofile fuel. induction fuel; intros md g m e s H.
-  - discriminate.
-  - simpl in H. eapply good_step; [| exact H]. intros md' g' m' e'. intros s' H'. eapply IHfuel; exact H'.
+  intros omacro oinfix ofile fuel. induction fuel; intros md g m e.
+  - apply good_fuel.
+  - simpl. apply good_step. exact IHfuel.
 Qed.
 
-Theorem load_only_include_crash : forall omacro oinfix ofile fuel xs s,
-  load omacro oinfix ofile fuel xs = RCrash s -> s = SiteIncludeTail.
-Proof.
-  intros. unfold load in H. eapply good_gen_begin; [| exact H].
-  intros md g m e s' H'. eapply run_only_include_crash; exact H'.
-Qed.
+Theorem run_no_crash : forall omacro oinfix ofile fuel md g m e s,
+  run omacro oinfix ofile fuel md g m e <> RCrash s.
+Proof. intros. apply (proj1 (run_good omacro oinfix ofile fuel md g m e)). Qed.
+
+Theorem load_good : forall omacro oinfix ofile fuel xs, good (load omacro oinfix ofile fuel xs).
+Proof. intros. unfold load. apply good_gen_begin. apply run_good. Qed.
+
+Theorem load_no_crash : forall omacro oinfix ofile fuel xs s, load omacro oinfix ofile fuel xs <> RCrash s.
+Proof. intros. apply (proj1 (load_good omacro oinfix ofile fuel xs)). Qed.
+
+Theorem load_no_latent : forall omacro oinfix ofile fuel xs m, load omacro oinfix ofile fuel xs <> ROk m true.
+Proof. intros. apply (proj2 (load_good omacro oinfix ofile fuel xs)). Qed.
 
 (* ---- witnesses ---- *)
 Definition ysym (c : nameclass) (n : nat) : sym := mkSym c false false false false false BNone n.
@@ -482,10 +501,11 @@ Definition w_include : shape := lst [SSym (ysym (NForm FInclude) 1); SPair (SArr
 (* (mdef (a) b 1) *)
 Definition w_mdef : shape := lst [SSym (ysym (NForm FMdef) 2); lst [SSym (ysym NOther 3)]; SSym (ysym NOther 4); SInt].
 
-Lemma include_crashes : load_deferred 10 [w_include] = RCrash SiteIncludeTail.
+(* the two former counterexamples are compile errors now *)
+Lemma include_improper_is_error : load_deferred 10 [w_include] = RErr.
 Proof. vm_compute. reflexivity. Qed.
 
-Lemma mdef_latent : load_deferred 10 [w_mdef] = ROk [] true.
+Lemma mdef_list_target_is_error : load_deferred 10 [w_mdef] = RErr.
 Proof. vm_compute. reflexivity. Qed.
 
 (* the latent flag is raised only by GenerateMultiDef: without an mdef head in the input there is none.
